@@ -18,6 +18,7 @@ CONSTANTS
   MinWeight = %(minweight)d
   SynSet = {%(syn)s}
   ScopeSet = {%(scopes)s}
+  TypeSet = {%(types)s}
   MaxBroken = 1
 INVARIANTS SpecSane Export
 CHECK_DEADLOCK FALSE
@@ -25,6 +26,7 @@ CHECK_DEADLOCK FALSE
 
 ALLSYN = '"proto2", "proto3", "editions"'
 ALLSCOPES = '"file", "M", "N"'
+ALLTYPES = '"int32", "string", "bytes", "enumE", "enumNE", "message", "group"'
 
 # name, maxfields, maxweight, minfields, minweight, syntaxes, scopes, simulate(num traces) , depth, coverage
 RUNS = {
@@ -35,7 +37,8 @@ RUNS = {
     "thorough": [
         dict(name="exh1", maxfields=1, maxweight=1, minfields=1, minweight=0, syn=ALLSYN, scopes=ALLSCOPES, sim=None, coverage=True),
         dict(name="exh2", maxfields=1, maxweight=2, minfields=1, minweight=2, syn=ALLSYN, scopes=ALLSCOPES, sim=None),
-        dict(name="exh3", maxfields=1, maxweight=3, minfields=1, minweight=3, syn='"editions"', scopes='"N"', sim=None),
+        dict(name="exh3", maxfields=1, maxweight=3, minfields=1, minweight=3, syn='"editions"', scopes='"N"', sim=None,
+             types='"string", "enumNE", "message"'),   # one type per feature family: utf8 / enum + packing / encoding + presence
         dict(name="sim", maxfields=3, maxweight=10, minfields=2, minweight=3, syn=ALLSYN, scopes=ALLSCOPES, sim=250, depth=13),
     ],
 }
@@ -176,7 +179,7 @@ def run(pid, tier, replay=None):
     for r in RUNS[tier]:
         cfg = "MCFeatures_%s.cfg" % r["name"]
         with open(os.path.join(wd, cfg), "w") as fh:
-            fh.write(CFG % r)
+            fh.write(CFG % dict({"types": ALLTYPES}, **r))
         casefile = os.path.join(wd, "cases_%s.jsonl" % r["name"])
         n = 0
         with open(casefile, "w") as cf:
@@ -205,7 +208,7 @@ def run(pid, tier, replay=None):
         trans += res.generated or n
         ncases += n
         bounds.append({"run": r["name"], "max_fields": r["maxfields"], "max_weight": r["maxweight"], "syntaxes": r["syn"],
-                       "scopes": r["scopes"], "simulate": sim, "cases": n, "tlc_wall_s": round(res.wall, 1)})
+                       "scopes": r["scopes"], "types": r.get("types", "all"), "simulate": sim, "cases": n, "tlc_wall_s": round(res.wall, 1)})
         if n == 0:
             raise vf.MachineryError("run %s exported no case" % r["name"])
         if demo_file is None:
